@@ -263,7 +263,7 @@ def gen(rnd, st):
     return "BadType", dict(xid=x)
   if k in (12, 13):
     occ = sorted(st["slots"])
-    free = [s for s in range(1, st["NB"] + 1) if s not in st["slots"]]
+    free = [s for s in range(1, st["NB"] + 1) if s not in st["slots"] and s not in st["limbo"]]
     c = rnd.random()
     if c < 0.55 or (c < 0.9 and not occ):
       return "PacketOut", dict(xid=x, src="data", slot=0, act=rnd.choice([1, 2, 9, 0, 65000]))
@@ -271,28 +271,39 @@ def gen(rnd, st):
       st["slots"].discard(occ[0])
       act = rnd.choice([1, 2, 0, 65000, 65000, 9])
       if act in (65000, 9):
-        st["limbo"] = True       # the spec buffers nothing more after a refused action list
+        st["limbo"].add(occ[0])  # the spec buffers nothing more after a refused action list
       return "PacketOut", dict(xid=x, src="live", slot=occ[0], act=act)
     if c < 0.95 and free:
       return "PacketOut", dict(xid=x, src="stale", slot=free[0], act=2)
     return "PacketOut", dict(xid=x, src="bogus", slot=st["NB"] + 5, act=2)
   if k in (14, 15, 16, 17):
     c = rnd.random()
+    # st["maybe"]: flows the driver has asked for and not deleted = upper bound of the table
+    # (the spec refuses to consider "addbad" on a full table: one thing wrong at a time)
     if c < 0.6:
-      return "FlowMod", dict(xid=x, cmd=rnd.choice(["add", "addov", "mod", "del"]),
-                             f=rnd.choice(["f1", "f2"]), buf="none", slot=0)
+      cmd, f = rnd.choice(["add", "addov", "mod", "del"]), rnd.choice(["f1", "f2"])
+      if cmd == "del":
+        st["maybe"].discard(f)
+      else:
+        st["maybe"].add(f)
+      return "FlowMod", dict(xid=x, cmd=cmd, f=f, buf="none", slot=0)
     if c < 0.85:
-      return "FlowMod", dict(xid=x, cmd=rnd.choice(["delall", "badcmd", "emerg", "emergto", "emergrem",
-                                                    "addbad"]),
-                             f="f1", buf="none", slot=0)
+      cmd = rnd.choice(["delall", "badcmd", "emerg", "emergto", "emergrem", "addbad"])
+      if cmd == "delall":
+        st["maybe"].clear()
+      if cmd == "addbad" and len(st["maybe"]) >= 2:
+        cmd = "badcmd"
+      return "FlowMod", dict(xid=x, cmd=cmd, f="f1", buf="none", slot=0)
     occ = sorted(st["slots"])
-    free = [s for s in range(1, st["NB"] + 1) if s not in st["slots"]]
+    free = [s for s in range(1, st["NB"] + 1) if s not in st["slots"] and s not in st["limbo"]]
     if occ and c < 0.95:
       st["slots"].discard(occ[0])
-      if rnd.random() < 0.5:
-        st["limbo"] = True
+      if rnd.random() < 0.5 and len(st["maybe"]) < 2:
+        st["limbo"].add(occ[0])
         return "FlowMod", dict(xid=x, cmd="addbad", f="f1", buf="live", slot=occ[0])
+      st["maybe"].add("f1")
       return "FlowMod", dict(xid=x, cmd="add", f="f1", buf="live", slot=occ[0])
+    st["maybe"].add("f1")
     if free and c < 0.975:
       return "FlowMod", dict(xid=x, cmd="add", f="f1", buf="stale", slot=free[0])
     return "FlowMod", dict(xid=x, cmd="add", f="f1", buf="bogus", slot=st["NB"] + 5)
@@ -322,13 +333,18 @@ def gen(rnd, st):
   return "QueueCfgReq", dict(xid=x, p=rnd.choice([1, 9, 65532]))
 
 
+def alone(a, args):
+  t = tag_of(a, args)
+  return t.endswith("-badbuf") or t == "FlowMod-addbad-none"
+
+
 def drive(arg):
   """Random request history on the real switch, delivered in batches; returns the trace."""
   seed, n = arg
   from harness.adapters_c13 import Adapter, schema_ok
   rnd = random.Random(seed)
   ad = Adapter(NP=2, NB=1, MaxEntries=2, seed=seed)
-  st = dict(NB=1, slots=set(), down={1: False, 2: False}, limbo=False)
+  st = dict(NB=1, slots=set(), down={1: False, 2: False}, limbo=set(), maybe=set())
   tr = []
   while len(tr) < n:
     if rnd.random() < 0.25 and not st["limbo"]:   # (after a refused action list on a buffer
@@ -348,8 +364,8 @@ def drive(arg):
       evs, msgs = [], []
       for bi in range(rnd.choice([1, 1, 2, 3, 4, 6])):
         a, args = gen(rnd, st)
-        if tag_of(a, args).endswith("-badbuf"):
-          # (open finding on the unpatched tree: keep it in a batch of its own so
+        if alone(a, args):
+          # (variants that are or were open findings: kept in a batch of their own so
           # that a rejection can be classified by what was observed)
           if bi > 0:
             continue
@@ -358,7 +374,7 @@ def drive(arg):
         if c is not None:
           ad.bind.pop(c, None)
         evs.append(dict(a=a, args=args))
-        if tag_of(a, args).endswith("-badbuf"):
+        if alone(a, args):
           break
       total = sum(len(m) for m in msgs)
       cuts = [rnd.randrange(1, total) for _ in range(rnd.choice([0, 0, 1, 2, 5]))] if total > 1 else []
